@@ -323,7 +323,8 @@ def clone_literal(graph: rdflib.Graph, node: rdflib.Literal, target_graph: rdfli
     lex_val_string = str(node)
     lang = node.language
     datatype = node.datatype
-    new_literal = rdflib.Literal(lex_val_string, lang, datatype)
+    # normalize=False: a copy keeps the lexical form as it is ("05"^^xsd:integer must not become "5"^^xsd:integer)
+    new_literal = rdflib.Literal(lex_val_string, lang, datatype, normalize=False)
     return new_literal
 
 
